@@ -89,7 +89,7 @@ def check(rep, model, tier):
         if lab is None:
             rep.unresolved('LABEL-INDEP', det, f'{f.path}:{f.node.lineno} {det}', 'no is_burst column term')
             continue
-        read = {x[2] for x in T.walk(lab) if x[0] == 'col'}
+        read = modelled_reads(lab, ctx.unmodelled)
         if read <= set(cols):
             rep.ok('LABEL-INDEP', det, f'{f.path}:{f.node.lineno} {det}', found=f'reads {sorted(read)}')
         else:
@@ -115,3 +115,19 @@ def check(rep, model, tier):
 def rekey(t, frm, to):
     """loop keys mention the table they iterate over; both tables have the same rows"""
     return T.subst(t, lambda x: to if x == frm else None)
+
+
+def modelled_reads(t, unmodelled):
+    """columns read by a term outside unmodelled constructs (those are left to the definition rules of C06 / C07)"""
+    um = {u.rsplit('.', 1)[-1] for u in unmodelled} | {'DataFrame.__getitem__', '__getitem__'}
+    out, stack = set(), [t]
+    while stack:
+        x = stack.pop()
+        if not isinstance(x, tuple):
+            continue
+        if x and x[0] == 'call' and (x[1] in um or x[1].rsplit('.', 1)[-1] in um):
+            continue
+        if x and x[0] == 'col':
+            out.add(x[2])
+        stack.extend(y for y in x if isinstance(y, tuple))
+    return out
